@@ -126,5 +126,14 @@ private:
 	Constraint* mostViolated(Constraints &l);
 };
 
+#ifdef ADAPTAGRAMS_VERIF
+// Verification hook (compiled out unless ADAPTAGRAMS_VERIF is defined): when
+// a tracer is installed the incremental solver reports each step it takes.
+// With no tracer installed (the default) behaviour is unchanged.
+typedef void (*VerifEmitFn)(const char *event, const Constraint *a,
+        const Constraint *b);
+extern VerifEmitFn verif_emit;
+#endif
+
 }
 #endif // VPSC_SOLVE_VPSC_H
